@@ -159,9 +159,11 @@ pub fn polylines(p: &PathSpec, tol: f64) -> Vec<Poly> {
             match e {
                 Elem::Line(_, b) => pts.push(*b),
                 _ => {
-                    // uniform parameter steps fine enough for the requested deviation
+                    // uniform parameter steps fine enough for the requested deviation: a chord over a parameter
+                    // step h deviates by at most |P''| h^2 / 8, and |P''| <= 6 x (control polygon length) for
+                    // cubics (2 x for quadratics), so n >= sqrt(l / tol) steps suffice at any scale of the units
                     let l = e.ctrl_len();
-                    let n = ((l / (8.0 * tol).sqrt().max(1e-6)).ceil() as usize).clamp(4, 400);
+                    let n = (((l / tol.max(1e-300)).sqrt()).ceil() as usize).clamp(4, 2000);
                     for i in 1..=n {
                         pts.push(e.at(i as f64 / n as f64));
                     }
